@@ -59,8 +59,14 @@ class PkgRoot:
 
 def model_pkg(name, types, base_elab_types):
     """(name (component url types impls)) for the driver; types elaborated standalone (own children only)"""
-    sd = F.SchemaD([], types)
-    el = F.elaborate(sd)
+    import copy
+    plain = []
+    for t in types:
+        t2 = copy.copy(t)
+        if not t2.abstract:
+            t2.implements = None
+        plain.append(t2)
+    el = F.elaborate(F.SchemaD([], plain))
     impls = [[F._basic_key(t.name), F._basic_key(t.implements)] for t in types if not t.abstract and t.implements]
     tys = []
     for n, te in el[1]:
